@@ -218,7 +218,11 @@ def handleAllow (id : String) (args : List String) : String :=
         let v04 : Verdict := if on.bad || off.bad then .viol "panic-or-hang" else .ok
         reply id corr (showObs mOn ++ "|" ++ showObs mOff) [("C13", v13), ("C04", v04)]
           (specClass sOn ++ "/" ++ obsClass on ++ "/" ++ kindsSig p ++ "/sk" ++ toString sk.length ++ "/" ++ flags)
-      | _ => bad id "allow-patch"
+      | _ =>
+        -- the patch text does not decode: the library must say so both times; nothing to compare beyond that
+        let bothDerr : Bool := (match on, off with | .derr, .derr => true | _, _ => false)
+        reply id bothDerr "derr|derr"
+          [("C13", .unspec), ("C04", if on.bad || off.bad then .viol "panic-or-hang" else .ok)] "derr"
     | _, _, _, _, _, _ => bad id "allow-fields"
   | _ => bad id "allow-arity"
 
